@@ -360,13 +360,14 @@ class Run:
         if op.get("logger"):
             lg = logging.Logger(f"hv.{'.'.join(map(str, path))}")
             lg.propagate = False
-            lg.setLevel(logging.DEBUG)
+            # "late": logging gets configured (level lowered) only after the scope is already running
+            lg.setLevel(logging.WARNING if op.get("logger") == "late" else logging.DEBUG)
             if self.handler is not None:
                 lg.addHandler(self.handler)
             self.loggers[path] = lg
             kw["logger"] = lg
-        if op.get("trace"):
-            kw["trace_id"] = op["trace"]
+        if op.get("trace") is not None:
+            kw["trace_id"] = op["trace"]  # also the empty string (counts as "not given")
         comp = op.get("completion")
         if comp == "sync":
 
@@ -409,6 +410,10 @@ class Run:
             elif op["mode"] == "sync":
                 cm = self.prepared.pop(path, None) or self.make_scope(op, path, states)
                 with cm:
+                    if op.get("logger") == "late":
+                        self.loggers[path].setLevel(logging.DEBUG)
+                        # Logger.setLevel only clears the isEnabledFor caches of loggers registered with the manager
+                        self.loggers[path]._cache.clear()
                     self.ev("body_start", path)
                     self.prepare(op["body"], path)
                     await self.ops(op["body"], path, owner, path)
@@ -416,6 +421,10 @@ class Run:
             else:
                 cm = self.prepared.pop(path, None) or self.make_scope(op, path, states)
                 async with cm:
+                    if op.get("logger") == "late":
+                        self.loggers[path].setLevel(logging.DEBUG)
+                        # Logger.setLevel only clears the isEnabledFor caches of loggers registered with the manager
+                        self.loggers[path]._cache.clear()
                     self.ev("body_start", path)
                     self.prepare(op["body"], path)
                     await self.ops(op["body"], path, path, path)
